@@ -6,6 +6,7 @@ BASELINE_OFF = "cd /repo && /venv/bin/python -m pytest -ra -q -p no:cacheprovide
 TECH = {
  "torch": "bounded symbolic execution of the real torch code (__torch_dispatch__ term front end, replay-based path exploration), z3 decides each sliced obligation; models replayed against the real code",
  "numpy": "bounded symbolic execution of the real numpy/Python code over object arrays of z3-backed scalars, z3 decides each obligation per path; models replayed against the real code",
+ "shape": "bounded symbolic execution of the real torch.nn modules on a shape-only tensor stand-in with symbolic integer extents (__torch_function__ shape rules), z3 decides each shape obligation for all input sizes; models replayed against real torch",
  "crosshair": "CrossHair symbolic execution (z3) of the real Python functions under contracts, confirmed over all paths within stated bounds",
 }
 CLAIMED = {}   # id -> dict(engine=..., text=..., note=..., design=...)
